@@ -17,6 +17,7 @@ From RN Require Import Model.ConstraintsDef Model.Constraints Model.Edits Model.
 From RN Require Import Gen.GenStyles.
 From RN Require Import Model.Coercion.
 From RN Require Import Proofs.StandaloneP Proofs.ConstraintsP Proofs.HunkTailP1 Proofs.HunkTailP Proofs.CoercionP Proofs.HunkTailP2.
+From RN Require Import Gen.GenAcronyms Proofs.ScanFileP.
 Close Scope N_scope.   (* ConstraintsP opens it; the statements below count in nat *)
 
 (* an occurrence in an enabled visible style is the single match, passes the boundary test, and is mapped
@@ -198,6 +199,56 @@ Theorem C06_all_upper_styles : forall acr text S c1 c2 rest,
   upper_style S = true.
 Proof. exact ConstraintsP.compatible_all_upper. Qed.
 
+(* ONE FILE, END TO END through the scanner the CLI really runs (compound_scanner.rs::find_enhanced_matches: exact pass,
+   identifier extraction, compound pass, sort, overlap resolution) composed with the tail of scanner.rs::generate_hunks
+   (coercion by the model of coercion.rs): a standalone occurrence in an enabled visible style yields exactly one hunk, the
+   same-style rewrite, and applying its edit rewrites the file to dl ++ new ++ dr.  The compound pass adds nothing.
+   Added hypothesis: the words are also neutral for the table of the current source (gen_acronyms), with which
+   compound_scanner.rs tokenises the search term. *)
+Theorem C06_scan_file_standalone :
+  forall acr resolve line_excluded o defaults amb S0 S1 S sw rw styles dl dr extra,
+  wf_acr acr = true -> visible S0 = true -> visible S1 = true -> visible S = true ->
+  (2 <= length sw)%nat -> rw <> [] -> all_neutral acr sw = true -> all_neutral acr rw = true ->
+  all_neutral gen_acronyms sw = true ->
+  In S styles -> ctxs dl = true -> ctxs dr = true -> head_ok dr = true ->
+  let search := to_style acr sw S0 in
+  let repl := to_style acr rw S1 in
+  let vm := variant_map_core acr defaults [] [] false amb search repl (Some styles) in
+  let occ := to_style acr sw S in
+  let new := to_style acr rw S in
+  let c := dl ++ occ ++ dr in
+  let line := after_nl dl ++ occ ++ upto_nl dr in
+  mem occ (o_exclude_match o) = false -> line_excluded line = false ->
+  let h := {| t_line := line_of c (length dl); t_col := length (after_nl dl);
+              t_start := length dl; t_end := (length dl + length occ)%nat;
+              t_variant := occ; t_content := occ; t_replace := new;
+              t_before := line; t_after := after_nl dl ++ new ++ upto_nl dr; t_note := false |} in
+  generate_hunks_m acr resolve line_excluded o vm c repl
+    (find_enhanced_matches c search repl (keys vm) styles extra) = [h] /\
+  apply_edits_rev c [edit_of_thunk h] = Ok (dl ++ new ++ dr).
+Proof. exact ScanFileP.scan_file_standalone. Qed.
+
+(* and an occurrence written in a DISABLED word style (Snake, ScreamingSnake, Camel, Pascal) is left alone by the whole
+   scanner, compound pass included: no match, no hunk.  (The eight separator-carrying styles: computed instances in
+   Proofs/ScanFileP.v, ex_disabled_other_styles, and the real scanner in lib/props/c06.py.) *)
+Theorem C06_scan_file_disabled_untouched_word :
+  forall acr defaults amb S0 S1 S sw rw styles dl dr extra,
+  wf_acr acr = true -> visible S0 = true -> visible S1 = true -> word_style S = true ->
+  (2 <= length sw)%nat -> rw <> [] -> all_neutral acr sw = true -> all_neutral acr rw = true ->
+  all_neutral gen_acronyms sw = true ->
+  ~ In S styles -> ctxs dl = true -> ctxs dr = true ->
+  let search := to_style acr sw S0 in
+  let repl := to_style acr rw S1 in
+  let vm := variant_map_core acr defaults [] [] false amb search repl (Some styles) in
+  let c := dl ++ to_style acr sw S ++ dr in
+  find_enhanced_matches c search repl (keys vm) styles extra = [] /\
+  forall resolve line_excluded o,
+    generate_hunks_m acr resolve line_excluded o vm c repl
+      (find_enhanced_matches c search repl (keys vm) styles extra) = [].
+Proof. exact ScanFileP.scan_file_disabled_untouched_word. Qed.
+
+Print Assumptions C06_scan_file_standalone.
+Print Assumptions C06_scan_file_disabled_untouched_word.
 Print Assumptions C06_visible_unambiguous.
 Print Assumptions C06_standalone_hunk.
 Print Assumptions C06_standalone_hunk_no_assumption.
